@@ -5,6 +5,11 @@ let () =
   | [_; "chk-codec"; path] -> Chk_codec.run path
   | [_; "run-gw"; hist; out] -> Gw_io.run_model hist out
   | [_; "cmp-gw"; hist; impl] -> Cmp_gw.run hist impl
+  | [_; "chk-match"; path] -> Chk_match.run path
+  | [_; "chk-cli"; path] -> Chk_cli.run path
+  | [_; "chk-util"; path] -> Chk_util.run path
+  | [_; "cmp-txn"; hist; impl] -> Cmp_txn.run hist impl
+  | [_; "gen-txn"; seed; n; out] -> Gen_txn.run (int_of_string seed) (int_of_string n) out
   | [_; "cmp-cl"; hist; impl] -> Cmp_cl.run hist impl
   | [_; "gen-cl"; seed; n; out] -> Gen_cl.run (int_of_string seed) (int_of_string n) out
   | [_; "run-cl"; hist; out] -> Cl_io.run_model hist out
